@@ -80,6 +80,19 @@ impl<'a> World<'a> {
         let who = ["A", "B"][ep];
         for ev in events {
             ctx.oracle_event = true;
+            if self.forged {
+                // authenticated forged traffic was fed: keep the application flags, no delivery oracle
+                match ev {
+                    Ev::Ready => {
+                        self.s[ep].ready_seen = true;
+                        self.s[ep].may_send = true;
+                    }
+                    Ev::Chunk(..) => self.s[ep].may_send = true,
+                    Ev::Disconnect(_) => self.s[ep].closed = true,
+                    Ev::Connless(_) => {}
+                }
+                continue;
+            }
             match ev {
                 Ev::Ready => {
                     ctx.t(0x201);
@@ -511,6 +524,58 @@ impl<'a> World<'a> {
             NetOp::FairSuffix { latency } => {
                 ctx.t(14);
                 self.fair_suffix(ctx, latency)
+            }
+            NetOp::Forge { ep, kind, salt } => {
+                ctx.t(15);
+                self.forge(ctx, (ep % 2) as usize, kind, salt)
+            }
+            NetOp::Restart { soft } => {
+                ctx.t(16 + soft as u64);
+                ctx.logf(|| format!("--- session {} ends: both sides disconnect, the network drains, reset() ---", self.session));
+                // soft: the acceptor's application knows nothing of the attempt, it just keeps listening
+                let keep_b = soft && matches!(self.s[1].conn.state_name(), "Unconnected" | "PendingConnect") && !self.s[1].closed;
+                if keep_b {
+                    ctx.count("probe_soft_restart_acceptor_kept");
+                }
+                for ep in 0..2 {
+                    if ep == 1 && keep_b {
+                        continue;
+                    }
+                    if self.s[ep].conn.state_name() != "Disconnected" {
+                        if !self.s[ep].closed {
+                            self.s[ep].closed = true;
+                            self.s[ep].close_reason = Some(Vec::new());
+                        }
+                        if let Err(v) = self.api(ctx, ep, Call::Disconnect, |c, cb| c.disconnect(cb, b"")) {
+                            return Some(v);
+                        }
+                    }
+                }
+                for dir in 0..2 {
+                    self.wire[dir].clear();
+                }
+                for ep in 0..2 {
+                    if ep == 1 && keep_b {
+                        continue;
+                    }
+                    if self.s[ep].conn.state_name() != "Disconnected" {
+                        // disconnect() failed to disconnect (send error path): reset() would not be a valid call
+                        ctx.count("probe_restart_skipped");
+                        return None;
+                    }
+                }
+                for ep in 0..2 {
+                    if !(ep == 1 && keep_b) {
+                        if let Err(v) = self.api(ctx, ep, Call::Reset, |c, _| c.reset()) {
+                            return Some(v);
+                        }
+                    }
+                    self.new_session_model(ep);
+                }
+                self.forged = false;
+                self.session += 1;
+                ctx.count("probe_session_restarted");
+                None
             }
         }
     }
